@@ -6,10 +6,10 @@ pub(crate) trait CommandExt {
     settings: &Settings,
     dotenv: &BTreeMap<String, String>,
     scope: &Scope,
-    unexports: &HashSet<String>,
+    unexports: &BTreeSet<String>,
   ) -> &mut Command;
 
-  fn export_scope(&mut self, settings: &Settings, scope: &Scope, unexports: &HashSet<String>);
+  fn export_scope(&mut self, settings: &Settings, scope: &Scope, unexports: &BTreeSet<String>);
 
   fn output_guard(self) -> (io::Result<process::Output>, Option<Signal>);
 
@@ -24,7 +24,7 @@ impl CommandExt for Command {
     settings: &Settings,
     dotenv: &BTreeMap<String, String>,
     scope: &Scope,
-    unexports: &HashSet<String>,
+    unexports: &BTreeSet<String>,
   ) -> &mut Command {
     for (name, value) in dotenv {
       self.env(name, value);
@@ -37,7 +37,7 @@ impl CommandExt for Command {
     self
   }
 
-  fn export_scope(&mut self, settings: &Settings, scope: &Scope, unexports: &HashSet<String>) {
+  fn export_scope(&mut self, settings: &Settings, scope: &Scope, unexports: &BTreeSet<String>) {
     if let Some(parent) = scope.parent() {
       self.export_scope(settings, parent, unexports);
     }
